@@ -55,7 +55,7 @@ var c11wrappers = []struct {
 	{"items", `{"items":%s}`, `[%s,%s]`},
 	{"tuple", `{"items":[{},%s]}`, `[1,%s]`},
 	{"additionalItems", `{"items":[{}],"additionalItems":%s}`, `[1,%s]`},
-	{"properties", `{"properties":{"o":{"type":"integer"},"p":%s}}`, `{"o":1,"p":%s}`},
+	{"properties", `{"properties":{"d":{"default":1},"o":{"type":"integer"},"p":%s,"z":{"default":"dz"}}}`, `{"o":1,"p":%s}`},
 	{"patternProperties", `{"patternProperties":{"^p":%s}}`, `{"p1":%s}`},
 	{"additionalProperties", `{"properties":{"o":{}},"additionalProperties":%s}`, `{"o":1,"q":%s}`},
 	{"dependencies", `{"dependencies":{"p":{"properties":{"p":%s}}}}`, `{"p":%s}`},
@@ -84,6 +84,10 @@ func c11generated() []Op {
 func c11probes() []Op {
 	ops := c04sigma(false)
 	ops = append(ops,
+		// probes sensitive to names, patterns and paths the workloads use (whatever scratch state an
+		// aborted validation leaves behind would show as a lost or foreign message here)
+		Op{Kind: "against", Def: `{"required":["d","o","p","z"]}`, Val: `{}`},
+		Op{Kind: "against", Def: `{"properties":{"x":{"required":["d","z","p1","q"],"properties":{"y":{"required":["d","o"]}}}}}`, Val: `{"x":{"y":{}}}`},
 		Op{Kind: "against", Def: `{"allOf":[{"type":"string","format":"date"},{"type":"string","format":"email"}]}`, Val: `"2020-01-01"`},
 		Op{Kind: "against", Def: `{"type":"array","items":{"type":"string","format":"date"}}`, Val: `["2020-01-01","x"]`},
 		Op{Kind: "against", Def: `{"type":"object","properties":{"a":{"type":"string","format":"date"},"b":{"type":"object","properties":{"c":{"type":"string","format":"email"}}}}}`, Val: `{"a":"x","b":{"c":"y"}}`},
